@@ -43,6 +43,10 @@ def execute(acc, case):
         for i in range(1, k + 1):
             lm = N.app_request(i, app=app_of(i), host=appnode.LOCAL_HOST, realm=appnode.LOCAL_REALM, dest_realm="remote.example")
             lm.hbh = hbh_of(i)
+            if case.get("cross_ids"):
+                # Hop-by-Hop and End-to-End are separate identifier spaces: one caller's End-to-End value may equal
+                # another caller's Hop-by-Hop value (answers echo both)
+                lm.e2e = hbh_of(i % k + 1)
             reqs[i] = DiameterMessage.load(R.encode(lm))[0]
 
         def caller(i):
@@ -87,6 +91,8 @@ def execute(acc, case):
                 for i in todo:
                     am = N.app_answer(i, app=app_of(i), host="peer0.remote.example", realm="remote.example")
                     am.hbh = hbh_of(i)
+                    if case.get("cross_ids"):
+                        am.e2e = hbh_of(i % k + 1)
                     # answers come in many shapes: without Result-Code (Experimental-Result only, RFC 6733 7.6), with both,
                     # with the E flag, without Session-Id or origin - the waiter is matched by Hop-by-Hop alone
                     shape = rng.choice(["plain", "plain", "experimental-only", "no-result", "error-flag", "no-session-id", "only-marker"])
@@ -110,6 +116,8 @@ def execute(acc, case):
         # are registered with the scheduler under the library's own names) has finished
         sched.run_until(lambda: wire_task.done and all(t.done for t in sched.tasks if t.name.startswith("recv_answer_")), 5.0, "dispatch-finishes")
         acc.counters["executions"] += 1
+        if case.get("cross_ids"):
+            acc.counters["executions_with_overlapping_identifier_spaces"] += 1
         if sched.parked_at:
             acc.counters["task_parked_during_the_exchange"] += 1
             acc.extra.setdefault("parked_at", {})
@@ -214,6 +222,9 @@ def main(tier, seed):
                     rng.shuffle(order)
                     cases.append({"seed": seed * 5003 + 50000 + len(cases), "k": k, "order": order, "policy": policy, "strategy": "rw", "p": 0.02,
                                   "park": [who, nth]})
+    for i, c in enumerate(cases):
+        if i % 3 == 1 and c["k"] > 1:
+            c["cross_ids"] = True
     rng.shuffle(cases)
     nb = 16 if q else 64
     batches = [{"cases": cases[i::nb]} for i in range(nb)]
@@ -225,7 +236,7 @@ def main(tier, seed):
     return harness.finish(PROP, tier, seed, "exploration", acc, RULE,
                           ["in-process workers (fake manager); the multi-process deployment of Bromelia.run() is out of reach",
                            "bounded progress: every caller returns within 30 virtual seconds after its answer was dispatched; a deadlock found by the scheduler is definitive"],
-                          t0, require_counters=("executions", "callers_matched", "steps", "real_loopback_ok", "task_parked_during_the_exchange", "two_connection_executions"))
+                          t0, require_counters=("executions", "callers_matched", "steps", "real_loopback_ok", "task_parked_during_the_exchange", "two_connection_executions", "executions_with_overlapping_identifier_spaces"))
 
 
 def replay(w):
